@@ -66,3 +66,47 @@ Theorem c12_late_reply_dropped s r w : is_running s = true -> win s = r :: w ->
 Proof. intros Hr Hw Hm Hs. rewrite (c01_unmatched_noop s r w Hr Hw Hs Hm). repeat split. Qed.
 Print Assumptions c12_fires_at_deadline.
 Print Assumptions c12_after_scrub.
+
+(* ---------- search streams: the timeout applies to every next() call separately ("the timer restarts with every received item") ---------- *)
+Section StreamTimer.
+Variables (s : st) (o : nat) (c : cop) (d : Z).
+Hypothesis Hc : getop s o = Some c.
+Hypothesis Hst : o_status c = SActive.
+Hypothesis Hrx : o_rx c = true.
+Hypothesis Htmo : o_tmo c = Some d.
+
+(* an item that has arrived is handed over whatever the clock says, and ends the call: no call is in progress afterwards *)
+Theorem c12_stream_item_wins r : nth_error (o_items c) (o_taken c) = Some r -> r_kind r <> RDone ->
+  exists c', getop (step s (StreamNext o)) o = Some c' /\ o_got c' = o_got c ++ [r] /\ o_call c' = None /\ o_status c' = SActive.
+Proof.
+  intros Hn Hk. unfold step. rewrite Hc, Hst, Hrx. cbn [negb]. rewrite Hn.
+  destruct (r_kind r); try contradiction; (eexists; split; [apply getop_updop_same; exact Hc|]); cbn; rewrite Hst; repeat split.
+Qed.
+
+Hypothesis Hnone : nth_error (o_items c) (o_taken c) = None.
+Hypothesis Hch : o_chan c = true.
+
+(* a call that starts now (none in progress) records its start; it can only time out at once if the timeout is not positive *)
+Theorem c12_stream_call_starts : o_call c = None -> 0 < d ->
+  exists c', getop (step s (StreamNext o)) o = Some c' /\ o_call c' = Some (now s) /\ o_status c' = SActive /\ scrubq (step s (StreamNext o)) = scrubq s.
+Proof.
+  intros Hcall Hd. unfold step. rewrite Hc, Hst, Hrx. cbn [negb]. rewrite Hnone, Hch, Htmo, Hcall. cbn [negb].
+  destruct (Z.leb_spec (now s + d) (now s)); [lia|]. eexists. split; [apply getop_updop_same; exact Hc|]. cbn. rewrite Hst. repeat split.
+Qed.
+(* a call in progress since t0 stays pending strictly before t0 + d ... *)
+Theorem c12_stream_pending t0 : o_call c = Some t0 -> now s < t0 + d ->
+  exists c', getop (step s (StreamNext o)) o = Some c' /\ o_call c' = Some t0 /\ o_status c' = SActive /\ scrubq (step s (StreamNext o)) = scrubq s.
+Proof.
+  intros Hcall Hlt. unfold step. rewrite Hc, Hst, Hrx. cbn [negb]. rewrite Hnone, Hch, Htmo, Hcall. cbn [negb].
+  destruct (Z.leb_spec (t0 + d) (now s)); [lia|]. eexists. split; [apply getop_updop_same; exact Hc|]. cbn. rewrite Hst. repeat split.
+Qed.
+(* ... and fails with a timeout, asking the driver to scrub the id, from t0 + d on: the deadline is counted from the start of this call,
+   not from the start of the search *)
+Theorem c12_stream_fires t0 : o_call c = Some t0 -> t0 + d <= now s -> is_running s = true ->
+  exists c', getop (step s (StreamNext o)) o = Some c' /\ o_status c' = SError /\ o_call c' = None /\
+             scrubq (step s (StreamNext o)) = scrubq s ++ [o_mid c].
+Proof.
+  intros Hcall Hle Hr. unfold step. rewrite Hc, Hst, Hrx. cbn [negb]. rewrite Hnone, Hch, Htmo, Hcall. cbn [negb].
+  destruct (Z.leb_spec (t0 + d) (now s)); [|lia]. rewrite Hr. eexists. split; [apply getop_updop_same; exact Hc|]. cbn. repeat split.
+Qed.
+End StreamTimer.
